@@ -97,8 +97,15 @@ def _read_only_under_rank_guard(I, node) -> bool:
             guarded = False
 
             def rank_guard(test):
-                return isinstance(test, ast.Compare) and len(test.ops) == 1 and isinstance(test.left, ast.Attribute) \
-                    and isinstance(test.comparators[0], ast.Attribute) and test.left.attr == test.comparators[0].attr
+                # a comparison of the same per-team quantity at two teams: x.rank <op> y.rank, or ranks[q] <op> ranks[i]
+                if not (isinstance(test, ast.Compare) and len(test.ops) == 1):
+                    return False
+                l_, r_ = test.left, test.comparators[0]
+                if isinstance(l_, ast.Attribute) and isinstance(r_, ast.Attribute):
+                    return l_.attr == r_.attr
+                if isinstance(l_, ast.Subscript) and isinstance(r_, ast.Subscript):
+                    return ast.dump(l_.value) == ast.dump(r_.value)
+                return False
 
             while g in par and g is not loop:
                 p = par[g]
@@ -123,7 +130,16 @@ def install_lemmas(w, prog, roles, lemmas: Dict[str, str]) -> None:
     I = w.I
     I.number_locals = True  # value numbering of sym-less locals, so that dividend and divisor can be recognised
 
+    def _unbounded_quotient(I, node, a, b, res) -> None:
+        # a quotient of two positive rating-dependent quantities that the intervals cannot bound usefully and no lemma matched:
+        # the interval results of this run downstream of it are inconclusive (reshaped code, e.g. a running-sum normaliser)
+        if (_in_kernel(I) and res.rng is not None and res.rng.hi > 1e9 and a.rng is not None and b.rng is not None and a.rng.ge0() and b.rng.ge0()
+                and ({"MU", "SIGMA"} & set(a.prov)) and ({"MU", "SIGMA"} & set(b.prov))):
+            I.event("lemma-failed", node, name="L-QUOT", why="a quotient of two positive rating-dependent quantities could not be bounded (no relational lemma matches its shape)")
+
     def hook(I, node, opname, a: Num, b: Num, res: Num):
+        if opname == "div" and (a.sym is None or b.sym is None or b.rng is None or not b.rng.gt0()):
+            _unbounded_quotient(I, node, a, b, res)
         if opname != "div" or res.rng is None or a.sym is None or b.sym is None:
             return None
         if b.rng is None or not (b.rng.gt0()):
@@ -151,6 +167,9 @@ def install_lemmas(w, prog, roles, lemmas: Dict[str, str]) -> None:
                 return replace(res, rng=res.rng.meet(Interval(0.0, 1.0, True, False)))
             if why is not None:
                 I.event("lemma-failed", node, name="L-PL", why=why)
+        # a quotient of two positive rating-dependent quantities that the intervals cannot bound and no lemma matched: the
+        # interval results of this run downstream of it are inconclusive (reshaped code, e.g. a running-sum normaliser)
+        _unbounded_quotient(I, node, a, b, res)
         return None
 
     I.hooks["arith-result"] = hook
